@@ -896,13 +896,13 @@ bn_t bignum_sdiv(bn_t a, bn_t b, int size)
 	if (a_sign) {
 		/* neg a */
 		a = bignum_sub(bignum_from_int(0), a);
-		a = bignum_mask(a, size - 1);
+		a = bignum_mask(a, size);
 	}
 
 	if (b_sign) {
 		/* neg b */
 		b = bignum_sub(bignum_from_int(0), b);
-		b = bignum_mask(b, size - 1);
+		b = bignum_mask(b, size);
 	}
 
 	c = bignum_udiv(a, b);
